@@ -27,6 +27,16 @@ package obiformats
 //
 // Oracle (no more than the statement): either an exit with a non-zero code was recorded, or every
 // byte of the fault-free output of the same history reached the sink and Close did not fail.
+//
+// Violation keys: <writer>:<plain|gzip>/<phase>/silent-success where phase is the place of the
+// failing sink operation: "write" (a Write issued while batches are being written; for gzip any
+// Write of the compressed stream), "final-flush" (the Write issued by the bufio flush inside
+// obiutils.Wfile.Close, recognised on the call stack), "close" (the Close fault);
+// chunkwriter/<main-write|drain-write|close>/silent-success for WriteSeqFileChunk driven alone
+// (position of the failing chunk computed from the arrival order); <target>/hang on a deadlock.
+//
+// Gzip cases run in child processes of this test binary (see c18child): the parallel gzip writer
+// leaks a goroutine and a 1 MiB buffer whenever its Close gives up on an error.
 
 import (
 	"bufio"
